@@ -94,6 +94,118 @@ fn check_foreign(ctx: &mut Ctx, code: &str, v: Decimal) {
     }
 }
 
+/// all `£` figures of the PDF's text runs, in order (sign: ASCII '-' or U+2212 before the '£')
+fn pdf_money_figures(runs: &[String]) -> Result<Vec<(Q, String)>, String> {
+    let mut out = Vec::new();
+    for (ri, run) in runs.iter().enumerate() {
+        let cs: Vec<char> = run.chars().collect();
+        let mut i = 0;
+        while i < cs.len() {
+            if cs[i] == '£' {
+                // a long negative figure in a narrow table cell wraps after its sign: the sign is then a run of its own
+                let sign_run_before = i == 0 && ri > 0 && runs[ri - 1] == "\u{2212}"; // (an ASCII "-" run is the empty-cell placeholder of the asset-event table)
+                let neg = sign_run_before || i > 0 && (cs[i - 1] == '-' || cs[i - 1] == '\u{2212}');
+                let mut j = i + 1;
+                while j < cs.len() && (cs[j].is_ascii_digit() || cs[j] == ',') { j += 1; }
+                if j < cs.len() && cs[j] == '.' { j += 1; while j < cs.len() && cs[j].is_ascii_digit() { j += 1; } }
+                let fig: String = cs[i..j].iter().collect();
+                match parse_gbp(&fig) { Some(q) => out.push((if neg { q.neg() } else { q }, format!("{}{fig}", if neg { "-" } else { "" }))), None => return Err(format!("'{fig}' in the PDF run {run:?} is not of the form £d,ddd.dd")) }
+                i = j;
+            } else { i += 1; }
+        }
+    }
+    Ok(out)
+}
+
+/// the monetary values the PDF template prints, in template order, computed exactly
+fn pdf_expected_money(rep: &cgt_core::TaxReport) -> Vec<(Q, String)> {
+    let q = |d: Decimal| Q::from_dec(d);
+    let mut v: Vec<(Q, String)> = Vec::new();
+    for y in &rep.tax_years {
+        let label = cgt_format::format_tax_year(y.period.start_year());
+        for (name, x) in [("net gain", y.net_gain), ("total gain", y.total_gain), ("total loss", y.total_loss), ("gross proceeds", y.gross_proceeds()), ("exemption", y.exempt_amount), ("taxable gain", y.taxable_gain(y.exempt_amount))] { v.push((q(x), format!("summary {label} {name}"))); }
+    }
+    for y in &rep.tax_years {
+        for d in &y.disposals {
+            let c = format!("{} {}", d.date, d.ticker);
+            let gain = q(d.net_gain_or_loss());
+            v.push((gain.abs(), format!("{c} header result")));
+            for m in &d.matches { if m.rule == cgt_core::MatchRule::Section104 { v.push((if m.quantity.is_zero() { Q::zero() } else { q(m.allowable_cost).div(&q(m.quantity)) }, format!("{c} Section 104 unit cost"))); } }
+            v.push((q(d.gross_proceeds).div(&q(d.quantity)), format!("{c} unit price")));
+            v.push((q(d.gross_proceeds), format!("{c} gross proceeds")));
+            let fees = q(d.gross_proceeds).sub(&q(d.proceeds));
+            if fees.is_pos() { v.push((q(d.gross_proceeds), format!("{c} gross proceeds (net line)"))); v.push((fees, format!("{c} sale fees"))); v.push((q(d.proceeds), format!("{c} net proceeds"))); }
+            v.push((q(d.total_allowable_cost()), format!("{c} cost")));
+            v.push((gain, format!("{c} result")));
+        }
+    }
+    let mut hs: Vec<&cgt_core::Section104Holding> = rep.holdings.iter().filter(|h| h.quantity > Decimal::ZERO).collect();
+    hs.sort_by(|a, b| a.ticker.cmp(&b.ticker));
+    for h in hs { v.push((q(h.total_cost).div(&q(h.quantity)), format!("holding {} average cost", h.ticker))); }
+    let mut txs: Vec<&cgt_core::Transaction> = rep.transactions.iter().collect();
+    txs.sort_by(|a, b| (a.date, &a.ticker).cmp(&(b.date, &b.ticker)));
+    for t in txs.iter() { match &t.operation { cgt_core::Operation::Buy { price, fees, .. } | cgt_core::Operation::Sell { price, fees, .. } => { if price.is_gbp() { v.push((q(price.amount), format!("{} {} price", t.date, t.ticker))); } if fees.is_gbp() { v.push((q(fees.amount), format!("{} {} fees", t.date, t.ticker))); } } _ => {} } }
+    for t in txs.iter() { match &t.operation { cgt_core::Operation::Dividend { total_value, .. } | cgt_core::Operation::Accumulation { total_value, .. } | cgt_core::Operation::CapReturn { total_value, .. } => { if total_value.is_gbp() { v.push((q(total_value.amount), format!("{} {} event value", t.date, t.ticker))); } } _ => {} } }
+    v
+}
+
+/// PDF leg: every `£` figure of the compiled document against the exact value rounded to pence,
+/// plus the structural strings (years, disposal headers, legs, dates, quantities)
+fn check_pdf(ctx: &mut Ctx, name: &str, l: &Ledger, rep: &cgt_core::TaxReport) {
+    let prop = "C17";
+    let runs = match cgt_formatter_pdf::verif_text_runs(rep) { Ok(r) => r, Err(e) => { ctx.ev.violation("oracle", format!("the PDF cannot be produced for a report the other front-ends show: {e}"), replay_text(prop, "oracle: PDF", "typst", l, &[format!("case {name}")])); return; } };
+    ctx.ev.count("pdf-documents");
+    let figs = match pdf_money_figures(&runs) { Ok(f) => f, Err(e) => { ctx.ev.violation("oracle", e, replay_text(prop, "oracle: PDF figure shape", "shape", l, &[format!("case {name}")])); return; } };
+    let want = pdf_expected_money(rep);
+    ctx.ev.count_n("pdf-figures", figs.len() as u64);
+    if figs.len() != want.len() {
+        ctx.ev.violation("oracle", format!("the PDF shows {} monetary figures, the report has {} to show", figs.len(), want.len()), replay_text(prop, "oracle: PDF lists", "figure count", l, &[format!("case {name}")]));
+        return;
+    }
+    for ((shown, fig), (exact, what)) in figs.iter().zip(&want) {
+        let r = half_away_pence(exact);
+        if shown.eq(&r) { continue; }
+        ctx.ev.violation("oracle", format!("PDF {what}: shows {fig} for {}; pence with midpoints away from zero is {}", exact.approx(), r.approx()), replay_text(prop, "oracle: PDF figure (text runs of the compiled Typst document)", what, l, &[format!("case {name}")]));
+        return;
+    }
+    // model correspondence on the same figures (Lean fmtGbp; the PDF's U+2212 and its sign on a zero result are presentation)
+    if let Some(m) = ctx.model.as_mut() {
+        for ((shown, fig), (exact, what)) in figs.iter().zip(&want) {
+            ctx.ev.traces_validated += 1;
+            let a = m.ask(&format!("fmtgbp {}", exact.wire()));
+            let mt = a.strip_prefix("ok ").map(unhex6).unwrap_or(a.clone());
+            let mq = parse_gbp(&mt);
+            if mq.as_ref().map(|x| x.eq(shown)).unwrap_or(false) { continue; }
+            if half_away_pence(exact).eq(shown) { ctx.ev.violation("correspondence", format!("PDF {what}: {fig} vs model {mt}"), replay_text(prop, "correspondence: PDF figure vs Lean fmtGbp", what, l, &[])); return; }
+        }
+    }
+    // structure: the same years, disposals, legs, holdings, in the same order
+    let joined: String = runs.join("\u{1f}");
+    let mut cursor = 0usize;
+    let mut expect = |tok: String, ctx: &mut Ctx| -> bool {
+        match joined[cursor..].find(&tok) { Some(i) => { cursor += i + tok.len(); true } None => { ctx.ev.violation("oracle", format!("the PDF lacks (in order) the text '{tok}' that the report calls for"), replay_text(prop, "oracle: PDF lists", &tok, l, &[format!("case {name}")])); false } }
+    };
+    let qty = |d: Decimal| -> String { let r = d.round_dp_with_strategy(6, rust_decimal::RoundingStrategy::MidpointAwayFromZero).normalize(); r.to_string() };
+    for y in &rep.tax_years { if !expect(cgt_format::format_tax_year(y.period.start_year()), ctx) { return; } if !expect(y.disposals.len().to_string(), ctx) { return; } }
+    for y in &rep.tax_years {
+        if !expect(format!("Tax Year {}", cgt_format::format_tax_year(y.period.start_year())), ctx) { return; }
+        for (i, d) in y.disposals.iter().enumerate() {
+            if !expect(format!("{}. {}", i + 1, d.ticker), ctx) { return; }
+            if !expect(format!("{} shares", qty(d.quantity)), ctx) { return; }
+            if !expect(format!("Sold {}", cgt_format::format_date(d.date)), ctx) { return; }
+            if !expect((if d.net_gain_or_loss() >= Decimal::ZERO { "GAIN" } else { "LOSS" }).to_string(), ctx) { return; }
+            for m in &d.matches {
+                let t = match m.rule { cgt_core::MatchRule::SameDay => format!("Same Day: {} shares", qty(m.quantity)), cgt_core::MatchRule::BedAndBreakfast => match m.acquisition_date { Some(a) => format!("B&B: {} shares from {}", qty(m.quantity), cgt_format::format_date(a)), None => format!("B&B: {} shares", qty(m.quantity)) }, cgt_core::MatchRule::Section104 => format!("Section 104: {} shares @", qty(m.quantity)) };
+                if !expect(t, ctx) { return; }
+            }
+        }
+    }
+    let mut hs: Vec<&cgt_core::Section104Holding> = rep.holdings.iter().filter(|h| h.quantity > Decimal::ZERO).collect();
+    hs.sort_by(|a, b| a.ticker.cmp(&b.ticker));
+    if !expect("Holdings".into(), ctx) { return; }
+    for h in hs { if !expect(h.ticker.clone(), ctx) { return; } if !expect(qty(h.quantity), ctx) { return; } }
+}
+
 fn gen_value(r: &mut Rng) -> Decimal {
     let sign = if r.chance(1, 3) { -1 } else { 1 };
     let v = match r.below(8) {
@@ -145,7 +257,7 @@ fn check_value(ctx: &mut Ctx, v: Decimal) {
 
 pub fn run(ctx: &mut Ctx) {
     let prop = "C17";
-    ctx.ev.rule = "part 1: generated values (exact half-penny midpoints, ±1 in the 4th decimal around them, zero, negative, ≥ £1,000,000, tiny, 10-decimal): format_gbp's string must have the shape [-]£d,ddd.dd and read back as the value rounded to pence with midpoints away from zero; the JSON money string (the serde serialiser used by --format json and the MCP tools) must read back as the full value or that same rounding; both compared with the Lean formatter. Amounts in other currencies (USD, EUR, JPY, KWD, CHF, BHD, KRW, CLF: ISO exponents 0, 2, 3, 4; half-unit midpoints, ±1 around them, negatives): format_currency_amount reads back as the amount rounded to the currency's minor units with midpoints away from zero, compared with the Lean fmtCurrencyAmount; and the real text report's ASSET EVENTS lines for USD/JPY/KWD midpoint amounts. Quantities: format_decimal_trimmed reads back exactly; dates DD/MM/YYYY; tax years YYYY/YY. part 2: generated ledgers: every figure of the plain-text summary rows equals format_gbp of the report's value; the JSON report's strings equal the same rounding; both list the same years, disposals and legs. Non-trivial = values exactly on a half-penny, and reports with ≥ 2 years; distinct by value/ledger.".into();
+    ctx.ev.rule = "part 1: generated values (exact half-penny midpoints, ±1 in the 4th decimal around them, zero, negative, ≥ £1,000,000, tiny, 10-decimal): format_gbp's string must have the shape [-]£d,ddd.dd and read back as the value rounded to pence with midpoints away from zero; the JSON money string (the serde serialiser used by --format json and the MCP tools) must read back as the full value or that same rounding; both compared with the Lean formatter. Amounts in other currencies (USD, EUR, JPY, KWD, CHF, BHD, KRW, CLF: ISO exponents 0, 2, 3, 4; half-unit midpoints, ±1 around them, negatives): format_currency_amount reads back as the amount rounded to the currency's minor units with midpoints away from zero, compared with the Lean fmtCurrencyAmount; and the real text report's ASSET EVENTS lines for USD/JPY/KWD midpoint amounts. Quantities: format_decimal_trimmed reads back exactly; dates DD/MM/YYYY; tax years YYYY/YY. part 2: generated ledgers: every figure of the plain-text summary rows equals format_gbp of the report's value; the JSON report's strings equal the same rounding; both list the same years, disposals and legs; PDF: the text runs of the compiled Typst document (hook verif_text_runs): every £ figure, in template order (summary, disposal headers, Section 104 unit costs, unit prices, gross/fees/net, cost, result, holdings' average costs, echoed prices, fees and event values), equals the exact value rounded to pence with midpoints away from zero and equals the Lean fmtGbp; years, disposal headers, quantities to six decimals, dates and legs appear in report order. Non-trivial = values exactly on a half-penny, and reports with ≥ 2 years; distinct by value/ledger.".into();
     let mut r = Rng::new(ctx.seed ^ 0xC17);
     let n = ctx.n(1500, 80_000);
     for _ in 0..n { let v = gen_value(&mut r); check_value(ctx, v); }
@@ -192,6 +304,10 @@ pub fn run(ctx: &mut Ctx) {
         if ys != format!("{}/{:02}", y, (y + 1) % 100) { ctx.ev.violation("oracle", format!("tax year {y} shown as {ys}"), format!("# property C17\nyear {y}\n")); }
         if let Some(m) = ctx.model.as_mut() { let a = m.ask(&format!("taxyearfmt {y}")); if a.strip_prefix("ok ").map(unhex6) != Some(ys.clone()) { ctx.ev.violation("correspondence", format!("tax year format {y}"), format!("# property C17\nyear {y}\n")); } }
     }
+    // the D8b witness every run: a gain of exactly 1.005 must read £1.01 in the PDF too
+    if let Ok(w) = ledger::from_dsl("2023-01-10 BUY ACME 1 @ 1 FEES 0\n2023-12-01 SELL ACME 1 @ 2.005 FEES 0\n") {
+        if let Ok(Ok(rep)) = run_impl::impl_calc_raw(&w, None, &run_impl::wide_exemptions()) { ctx.ev.evaluations += 1; check_pdf(ctx, "D8b witness", &w, &rep); }
+    }
     // part 2: whole reports
     let cfg = GenCfg::standard();
     let ex = run_impl::wide_exemptions();
@@ -202,6 +318,7 @@ pub fn run(ctx: &mut Ctx) {
         if rep.tax_years.len() >= 2 { ctx.ev.nontrivial.insert(ledger::dsl(&l)); }
         let text = cgt_formatter_plain::PlainFormatter.format(&rep).unwrap_or_default();
         let js = serde_json::to_value(&rep).unwrap_or_default();
+        check_pdf(ctx, &name, &l, &rep);
         // summary rows
         for (yi, y) in rep.tax_years.iter().enumerate() {
             let label = cgt_format::format_tax_year(y.period.start_year());
